@@ -57,19 +57,23 @@ macro_rules! integ_one {
             Ok((ind, f, d, fk, fa, fb, ia, ib)) => {
                 $sink.emit(json!({"t": "int", "form": <$t as Nums>::NAME, "c": hs(&c), "kx": h(k.x), "ky": h(k.y), "a": h(a), "b": h(b),
                     "ind": hs(&ind), "F": hs(&f), "dF": hs(&d), "Fk": h(fk), "Fa": h(fa), "Fb": h(fb), "Ia": h(ia), "Ib": h(ib), "h": hh, "cc": cc}));
-                // Segment<T>: end unchanged, piece identical to the function's own integral
+                // Segment<T>: breakpoint unchanged (bits); its integral is judged by the same oracle as the piece's own
+                // (the property fixes the result only up to rounding, so no bit-comparison with the piece's integral)
                 let seg = Segment { end: a, poly: p };
-                match guard(|| (seg.integral(k), seg.indefinite())) {
+                match guard(|| {
+                    let si = seg.integral(k);
+                    let sn = seg.indefinite();
+                    let d = si.poly.derivative();
+                    (si.end, sn.end, sn.poly.nums(), si.poly.nums(), d.nums(), si.evaluate(k.x), si.evaluate(a), si.evaluate(b), sn.evaluate(a), sn.evaluate(b))
+                }) {
                     Err(pn) => m.panic("Segment integral panic", &pn, || json!({"form": <$t as Nums>::NAME})),
-                    Ok((si, sn)) => {
+                    Ok((e1, e2, ind, f, d, fk, fa, fb, ia, ib)) => {
                         m.count("segment_integral_checked");
-                        if si.end.to_bits() != a.to_bits() || sn.end.to_bits() != a.to_bits() {
-                            m.violation("Segment integral changes the breakpoint", || json!({"form": <$t as Nums>::NAME, "end": hx(a), "observed": hx(si.end)}));
+                        if e1.to_bits() != a.to_bits() || e2.to_bits() != a.to_bits() {
+                            m.violation("Segment integral changes the breakpoint", || json!({"form": <$t as Nums>::NAME, "end": hx(a), "observed": hx(e1)}));
                         }
-                        if !all_bits_eq(&si.poly.nums(), &f) || !all_bits_eq(&sn.poly.nums(), &ind) {
-                            m.violation("Segment integral differs from the piece's own integral", || json!({"form": <$t as Nums>::NAME, "c": hxs(&c), "knot": [hx(k.x), hx(k.y)],
-                                "segment": hxs(&si.poly.nums()), "piece": hxs(&f)}));
-                        }
+                        $sink.emit(json!({"t": "int", "via": "Segment", "form": <$t as Nums>::NAME, "c": hs(&c), "kx": h(k.x), "ky": h(k.y), "a": h(a), "b": h(b),
+                            "ind": hs(&ind), "F": hs(&f), "dF": hs(&d), "Fk": h(fk), "Fa": h(fa), "Fb": h(fb), "Ia": h(ia), "Ib": h(ib), "h": hh ^ 1, "cc": cc}));
                     }
                 }
             }
@@ -98,7 +102,7 @@ pub fn drive07(a: &Args, m: &mut Mon, sink: &mut Sink) {
     canaries07(sink);
     m.canaries_fed += 4;
     let mut r = Rng::lane(a.seed, "C07", a.shard, 0);
-    let n = a.n(25_000, 600_000);
+    let n = a.n(12_000, 400_000);
     for _ in 0..n {
         macro_rules! per {
             ($t:ident) => {
